@@ -2,7 +2,7 @@
 From Coq Require Import List String Bool.
 Import ListNotations.
 From NV Require Import Types.SigDefs Gen.PrimopSig Gen.PrimopDyn Props.C01.
-From NV Require Import Types.Syntax Types.Sem Types.Decl Types.LogRel Types.Safety Types.ModelSig.
+From NV Require Import Types.Syntax Types.Sem Types.Decl Types.LogRel Types.Safety Types.ModelSig Types.Checker.
 
 Check (C01_sig_sound_generated :
   forall r, In r sig_table -> ~ In r.(s_name) exempt_ops ->
@@ -18,3 +18,6 @@ Check (C01_model_sig_sound : sig_sound model_sig).
 Check (C01_type_safety_model : forall n e T, has_type model_sig [] e T -> safe_outcome (run n e)).
 Check (C01_typed_result_in_type : forall Sg, sig_sound Sg ->
   forall n e T v, has_type Sg [] e T -> eval n MTyped [] e = Ok v -> V T [] v).
+
+Check (C01_checker_sound : forall Sg a T, check_deriv Sg a T = true -> has_type Sg [] (erase a) T).
+Check (C01_certified_safe : forall a T n, check_deriv model_sig a T = true -> safe_outcome (run n (erase a))).
